@@ -181,6 +181,11 @@ def check_deque(ctx, maxlen):
                 bad += 1
         ctx.traces += len(lines)
     ctx.extra["deque_primitive_cases"] = len(lines)
+    global _LOOP
+    if _LOOP is not None:
+        _LOOP._ready.clear()
+        _LOOP.close()
+        _LOOP = None
 
 
 # ---------------------------------------------------------------------------------------
